@@ -196,6 +196,10 @@ func TestWorker(t *testing.T) {
 		} else {
 			ch = NewReplayChoice(rf.Vector)
 		}
+		for _, hs := range rf.History {
+			_ = runOne(t, rf.Property, rf.Tier, hs, NewSeedChoice(hs), rf.Params)
+			total.Inc("replay_history_runs", 1)
+		}
 		rc := runOne(t, rf.Property, rf.Tier, rf.Seed, ch, rf.Params)
 		// Worlds with a source of nondeterminism the simulator cannot own (Go map iteration inside
 		// OnExecute) may need several attempts to take the same branch again.
@@ -278,6 +282,8 @@ func TestWorker(t *testing.T) {
 			if !seenKeys[k] {
 				seenKeys[k] = true
 				rf := minimise(t, prop, tier, seed, params, rc, v)
+				from := seedBase
+				rf.HistoryFrom = &from
 				out.Violations = append(out.Violations, rf)
 			}
 			if len(out.Violations) >= maxViol {
